@@ -507,6 +507,15 @@ func monitorArcs(line string, rect image.Rectangle, cs []Call) (fails []Failure)
 		cphi, sphi := math.Cos(2*math.Pi*float64(c.F[2])), math.Sin(2*math.Pi*float64(c.F[2]))
 		// near-degenerate geometry (end points almost diametrically opposite for the given radii) is ill-conditioned
 		illCond := math.Abs(math.Abs(dth)-math.Pi) < 1e-3 || math.Abs(dth) < 1e-3 || math.Abs(math.Abs(dth)-2*math.Pi) < 1e-3
+		// the Renderer maps through float32 (x + bias, then scale): the resolution of that map in viewBox units.
+		// An ellipse whose smaller radius is not at least a thousand times that resolution is below what the
+		// float32 rasteriser interface can express; its shape is not checked (end point and segment count are).
+		magView := math.Max(math.Max(math.Abs(float64(vb.MinX)), math.Abs(float64(vb.MaxX))), math.Max(math.Abs(float64(vb.MinY)), math.Abs(float64(vb.MaxY))))
+		pixMag := math.Max(math.Max(math.Abs(ex), math.Abs(ey)), math.Max(math.Abs(float64(px)), math.Abs(float64(py)))) + W + H
+		viewErr := (magView + math.Abs(x1) + math.Abs(y1) + math.Abs(x2) + math.Abs(y2) + pixMag/math.Min(sx, sy)) / (1 << 22)
+		if viewErr > 1e-3*math.Min(Rx, Ry) {
+			illCond = true
+		}
 		onEllipse := func(x, y float64) float64 {
 			vx, vy := unT(x, y)
 			ux, uy := cphi*(vx-cx)+sphi*(vy-cy), -sphi*(vx-cx)+cphi*(vy-cy)
